@@ -605,9 +605,10 @@ impl Rng {
     }
 }
 
-const PATS: &[&str] = &["a", "b", "c", "ab", "abc", "a+", "b+", "[ab]", "[ab]+", "[a-c]+", "é", "[aé]+", "a|ab", "(|a)b", "a*b", "\n", "[a-c\n]", "bc", "ca", "[^a]", "aé", "é+", "x", "[a-cé]+x?"];
+const PATS: &[&str] = &["a", "b", "c", "ab", "abc", "a+", "b+", "[ab]", "[ab]+", "[a-c]+", "é", "[aé]+", "a|ab", "(|a)b", "a*b", "\n", "[a-c\n]", "bc", "ca", "[^a]", "aé", "é+", "x", "[a-cé]+x?",
+    ".", "[^\n]+", "a{2}", "a{1,2}b", "(ab)+", "(a|b)*c", "b?c?a", "€", "[€😀]+", "a{2,}", "(a|)c", "x|\n+"];
 const LAS: &[&str] = &["a", "b", "c", "bc", "b+", "é", "[ab]", "x", "c+", "\n"];
-const ALPHA: &[char] = &['a', 'b', 'c', 'é', '\n', 'x', 'a', 'b'];
+const ALPHA: &[char] = &['a', 'b', 'c', 'é', '\n', 'x', 'a', 'b', '€', '😀', 'c', '\n'];
 
 fn gen_input(r: &mut Rng, maxlen: usize) -> String {
     let n = r.below(maxlen + 1);
@@ -645,14 +646,14 @@ fn gen_case(family: &str, r: &mut Rng) -> Case {
         "stream" | "lookahead" => {
             let with_la = family == "lookahead";
             let pats = gen_pats(r, with_la, npat, numbering);
-            let input = gen_input(r, 6);
+            let input = gen_input(r, 9);
             let b = boundaries(&input);
             let start = if r.below(3) == 0 { *r.pick(&b) } else { 0 };
             let n = input.chars().count() + 2;
             Case { family: family.into(), modes: vec![ModeSpec { name: "M0".into(), pats, trans: vec![] }], input, start_offset: start, ops: vec![Op::Next; n], with_positions: false }
         }
         "modes" | "peek" | "offset" | "isolation" => {
-            let nm = 1 + r.below(3);
+            let nm = 1 + r.below(4);
             let mut modes = vec![];
             // shared pool of token types so that types are shared between modes
             for mi in 0..nm {
@@ -670,7 +671,7 @@ fn gen_case(family: &str, r: &mut Rng) -> Case {
                 }
                 modes.push(ModeSpec { name: format!("M{mi}"), pats, trans });
             }
-            let input = gen_input(r, 7);
+            let input = gen_input(r, 10);
             let b = boundaries(&input);
             let mut ops = vec![];
             if family == "isolation" {
@@ -732,9 +733,9 @@ fn gen_case(family: &str, r: &mut Rng) -> Case {
         }
         "positions" => {
             let pats = gen_pats(r, false, npat, 0);
-            let input = gen_input(r, 8);
+            let input = gen_input(r, 16);
             let b = boundaries(&input);
-            let nops = 4 + r.below(10);
+            let nops = 4 + r.below(16);
             let mut ops = vec![];
             for _ in 0..nops {
                 ops.push(match r.below(8) {
